@@ -82,6 +82,25 @@ def set_masks(torch, rng, p, mode, tpat=None):
                 layer.dilation_masker.gamma.copy_(torch.tensor(pm.gamma_for(rng, K, v, st), dtype=layer.dilation_masker.gamma.dtype))
 
 
+SWITCHES = ['train_net_only', 'train_nas_only', 'train_net_and_nas', 'train_features=False', 'train_features=True', 'train_rf=False', 'train_rf=True',
+            'train_dilation=False', 'train_dilation=True', 'discrete_cost=True', 'discrete_cost=False']
+
+
+def apply_switches(rng, p):
+    """the property quantifies over every value of the masks however the trainability switches stand: after the masks are
+    set, a random sequence (possibly empty) of the public trainability / cost-mode switches is applied to the PIT model"""
+    done = []
+    for _ in range(rng.choice([0, 1, 1, 2, 3])):
+        sw = rng.choice(SWITCHES)
+        if '=' in sw:
+            attr, val = sw.split('=')
+            setattr(p, attr, val == 'True')
+        else:
+            getattr(p, sw)()
+        done.append(sw)
+    return done
+
+
 def _bools(t):
     return [bool(x) for x in t.detach().reshape(-1).tolist()]
 
@@ -140,6 +159,7 @@ def net_case(torch, job):
     from plinio.methods import PIT
     from plinio.methods.pit.nn import PITConv1d, PITConv2d, PITLinear
     from plinio.methods.pit.nn.features_masker import PITFrozenFeaturesMasker
+    from plinio.methods.pit.nn.timestep_masker import PITFrozenTimestepMasker
     seed = job['seed']
     rng = random.Random(seed)
     o = {'job': job, 'skip': None, 'layers': {}, 'fails': [], 'arch': None}
@@ -179,6 +199,7 @@ def net_case(torch, job):
             first = [nm for nm, l in p.seed.named_modules() if isinstance(l, PITConv1d)][0]
             tpat = {first: (r, v)}
         set_masks(torch, rng, p, job['mode'], tpat)
+        o['switches'] = apply_switches(rng, p)
         pl = {nm: l for nm, l in p.seed.named_modules() if isinstance(l, (PITConv1d, PITConv2d, PITLinear))}
 
         # ---- forward of the masked network, with the output of every searchable layer
@@ -233,7 +254,7 @@ def net_case(torch, job):
                 L['K'] = l.kernel_size[0]
                 L['beta'] = [float(x) for x in l.timestep_masker.beta.detach()]
                 L['gamma'] = [float(x) for x in l.dilation_masker.gamma.detach()]
-                L['frozen_t'] = not l.timestep_masker.beta.requires_grad
+                L['frozen_t'] = isinstance(l.timestep_masker, PITFrozenTimestepMasker)      # by class: requires_grad follows the switches
                 L['tm'] = _bools(l.time_mask)
             x_l = emods.get(nm)
             if x_l is None:
